@@ -503,17 +503,24 @@ pub fn render_file(f: &File) -> String {
             j += 1;
         }
         let mut indent = String::new();
+        // a path element is a module name, or `fn:<name>` (function body) or `const:` (anonymous const block)
         for m in &mods {
-            out.push_str(&format!("{indent}pub mod {m} {{\n"));
+            if let Some(f) = m.strip_prefix("fn:") {
+                out.push_str(&format!("{indent}pub fn {f}() {{\n"));
+            } else if m.starts_with("const:") {
+                out.push_str(&format!("{indent}const _: () = {{\n"));
+            } else {
+                out.push_str(&format!("{indent}pub mod {m} {{\n"));
+            }
             indent.push_str("    ");
         }
         for it in &f.items[i..j] {
             render_item(it, &indent, &mut out);
             out.push('\n');
         }
-        for _ in &mods {
+        for m in mods.iter().rev() {
             indent.truncate(indent.len() - 4);
-            out.push_str(&format!("{indent}}}\n"));
+            out.push_str(&format!("{indent}}}{}\n", if m.starts_with("const:") { ";" } else { "" }));
         }
         i = j;
     }
